@@ -280,7 +280,7 @@ pub fn run(cx: &Ctx) {
     cx.run_enum(&BinLookup, total, |i| Some(cases[i as usize].clone()), "LEN 1..=4 x all non-decreasing edge vectors over an 8-value lattice x ~25 samples per vector, every implementation");
     cx.label("generated");
     let w = cx.workers;
-    let n = cx.by(600, 8000);
+    let n = cx.by(600, 60000);
     for imp in IMPLS {
         for &len in &LENS {
             let imp = imp.to_string();
